@@ -3,7 +3,7 @@
    renames identities canonically (first appearance) on both sides. *)
 From Coq Require Import ZArith List String Bool Arith.
 Import ListNotations.
-From TD Require Import Lib.Sexp Model.C07_Heap Model.C07_Alias.
+From TD Require Import Lib.Sexp Model.C07_Heap Model.C07_Alias Model.C07_Ext.
 Open Scope string_scope.
 
 Definition dec_path (s : sexp) : option path := dec_list dec_str s.
@@ -76,7 +76,8 @@ Definition dec_instr (s : sexp) : option instr :=
   end.
 
 Definition enc_err (e : err) : sexp :=
-  SA (match e with EKey => "key" | ELock => "lock" | EOverlap => "overlap" | EShape => "shape" | EFuel => "fuel" | EType => "type" end).
+  SA (match e with EKey => "key" | ELock => "lock" | EOverlap => "overlap" | EShape => "shape" | EFuel => "fuel" | EType => "type"
+               | ENotModelled => "not-modelled" end).
 Definition enc_outcome (o : outcome) : sexp :=
   match o with Done => SA "ok" | Raised e => SL [SA "raised"; enc_err e] end.
 Definition enc_ref (r : ref) : sexp :=
@@ -106,6 +107,85 @@ Fixpoint run_log (s : st) (prog : list instr) : st * list outcome :=
       end
   end.
 
+(* ---------------------------------------------------------------- the other container kinds (Model/C07_Ext.v) *)
+Definition dec_win (s : sexp) : option win :=
+  match s with
+  | SL [nb; sel; b] => match dec_nat nb, dec_list dec_nat sel, dec_bool b with
+                       | Some nb, Some sel, Some b => Some (mkWin nb sel b) | _, _, _ => None end
+  | _ => None
+  end.
+Definition dec_part (s : sexp) : option lpart :=
+  match s with
+  | SL [j; wh; nb; sel; vs] =>
+      match dec_nat j, dec_bool wh, dec_nat nb, dec_list dec_nat sel, dec_opt (dec_list dec_nat) vs with
+      | Some j, Some wh, Some nb, Some sel, Some vs => Some (mkPart j wh nb sel vs) | _, _, _, _, _ => None end
+  | _ => None
+  end.
+Definition dec_xinstr (s : sexp) : option xinstr :=
+  match s with
+  | SL [SA "mksub"; r; w] => match dec_nat r, dec_win w with Some r, Some w => Some (XMkSub r w) | _, _ => None end
+  | SL [SA "sub-get"; r; p] => match dec_nat r, dec_path p with Some r, Some p => Some (XSubGet r p) | _, _ => None end
+  | SL [SA "sub-set_"; r; p; v] =>
+      match dec_nat r, dec_path p, dec_nat v with Some r, Some p, Some v => Some (XSubSetU r p v) | _, _, _ => None end
+  | SL [SA "sub-update_"; r; o] => match dec_nat r, dec_nat o with Some r, Some o => Some (XSubUpdU r o) | _, _ => None end
+  | SL [SA "sub-set_at_"; r; p; v; w] =>
+      match dec_nat r, dec_path p, dec_nat v, dec_win w with
+      | Some r, Some p, Some v, Some w => Some (XSubSetAt r p v w) | _, _, _, _ => None end
+  | SL [SA "sub-fill_"; r; p; SZ z] => match dec_nat r, dec_path p with Some r, Some p => Some (XSubFill r p z) | _, _ => None end
+  | SL [SA "sub-const_"; r; SZ z] => option_map (fun r => XSubConstU r z) (dec_nat r)
+  | SL [SA "sub-unary_"; r; f] => match dec_nat r, dec_pf f with Some r, Some f => Some (XSubUnaryU r f) | _, _ => None end
+  | SL [SA "sub-binary_"; r; f; o] =>
+      match dec_nat r, dec_bf f, dec_nat o with Some r, Some f, Some o => Some (XSubBinaryU r f o) | _, _, _ => None end
+  | SL [SA "sub-clone"; r] => option_map XSubClone (dec_nat r)
+  | SL [SA "sub-shallow"; r] => option_map XSubShallow (dec_nat r)
+  | SL [SA "sub-select"; r; ks] => match dec_nat r, dec_list dec_str ks with Some r, Some ks => Some (XSubSelect r ks) | _, _ => None end
+  | SL [SA "sub-exclude"; r; ks] => match dec_nat r, dec_list dec_str ks with Some r, Some ks => Some (XSubExclude r ks) | _, _ => None end
+  | SL [SA "sub-unary"; r; f] => match dec_nat r, dec_pf f with Some r, Some f => Some (XSubUnary r f) | _, _ => None end
+  | SL [SA "mklazy"; ms; nb; sels] =>
+      match dec_list dec_nat ms, dec_nat nb, dec_list (dec_list dec_nat) sels with
+      | Some ms, Some nb, Some sels => Some (XMkLazy ms nb sels) | _, _, _ => None end
+  | SL [SA "lazy-member"; l; j] => match dec_nat l, dec_nat j with Some l, Some j => Some (XLazyMember l j) | _, _ => None end
+  | SL [SA "lazy-get"; l; p] => match dec_nat l, dec_path p with Some l, Some p => Some (XLazyGet l p) | _, _ => None end
+  | SL [SA "lazy-set_"; l; p; v] =>
+      match dec_nat l, dec_path p, dec_nat v with Some l, Some p, Some v => Some (XLazySetU l p v) | _, _, _ => None end
+  | SL [SA "lazy-update_"; l; o] => match dec_nat l, dec_nat o with Some l, Some o => Some (XLazyUpdU l o) | _, _ => None end
+  | SL [SA "lazy-setitem"; l; o; vnb; parts] =>
+      match dec_nat l, dec_nat o, dec_nat vnb, dec_list dec_part parts with
+      | Some l, Some o, Some vnb, Some parts => Some (XLazySetItem l o vnb parts) | _, _, _, _ => None end
+  | SL [SA "lazy-fill_"; l; p; SZ z] => match dec_nat l, dec_path p with Some l, Some p => Some (XLazyFill l p z) | _, _ => None end
+  | SL [SA "lazy-const_"; l; SZ z] => option_map (fun l => XLazyConstU l z) (dec_nat l)
+  | SL [SA "lazy-unary_"; l; f] => match dec_nat l, dec_pf f with Some l, Some f => Some (XLazyUnaryU l f) | _, _ => None end
+  | SL [SA "lazy-clone"; l] => option_map XLazyClone (dec_nat l)
+  | SL [SA "lazy-flatten-keys"; l; sep] => match dec_nat l, dec_str sep with Some l, Some sep => Some (XLazyFlatten l sep) | _, _ => None end
+  | SL [SA "memmap_"; r] => option_map XMemmap (dec_nat r)
+  | SL [SA "share_memory_"; r] => option_map XShare (dec_nat r)
+  | _ => option_map XB (dec_instr s)
+  end.
+
+Definition enc_xcls (c : xcls) : sexp :=
+  match c with
+  | XCBase c => enc_cls c | XCAlloc => SA "alloc" | XCInplace => SA "inplace" | XCView => SA "view" | XCCopy => SA "copy"
+  | XCConv => SA "conversion"
+  end.
+
+(* the caller's handles: the regular registers, then the source of every window, then the members of every stack *)
+Definition enc_xst (s : xst) : sexp :=
+  let rs := (regs (xb s) ++ map (fun sh => RNode (ssrc sh)) (xsubs s)
+             ++ flat_map (fun L => map RNode (lmem L)) (xlazy s))%list in
+  SL [SL (SA "regs" :: map enc_ref rs);
+      SL (SA "stor" :: map (enc_list enc_Z) (hstor (hp (xb s))));
+      SL (SA "nodes" :: map enc_node (hnodes (hp (xb s))))].
+
+Fixpoint xrun_log (s : xst) (prog : list xinstr) : xst * list outcome :=
+  match prog with
+  | [] => (s, [])
+  | i :: t =>
+      match xstep s i with
+      | (s', Done) => let '(s2, l) := xrun_log s' t in (s2, Done :: l)
+      | (s', o) => (s', [o])
+      end
+  end.
+
 Definition dispatch (cmd : string) (args : list sexp) : option sexp :=
   match cmd, args with
   | "run", [prog] =>
@@ -114,6 +194,13 @@ Definition dispatch (cmd : string) (args : list sexp) : option sexp :=
                   Some (SL [SL (SA "outs" :: map enc_outcome outs); enc_st s])
       | None => None
       end
+  | "xrun", [prog] =>
+      match dec_list dec_xinstr prog with
+      | Some p => let '(s, outs) := xrun_log empty_xst p in
+                  Some (SL [SL (SA "outs" :: map enc_outcome outs); enc_xst s])
+      | None => None
+      end
+  | "xclass", [i] => option_map (fun x => enc_xcls (xclassify x)) (dec_xinstr i)
   | "class", [i] => option_map (fun x => enc_cls (classify x)) (dec_instr i)
   | _, _ => None
   end.
